@@ -32,6 +32,7 @@ type Effect struct {
 	Flow  *Flow
 	Entry string
 	VType  string   // type of the called value for dynamic calls (e.g. termincommittee.OnInCommitteeCommitCallback)
+	Arm    *ssa.BasicBlock // the walk started at this block of the entry function (an arm of an event loop's select)
 	Config string   // named assumption set in force ("" = none)
 	Splits []string // auto case-split atoms assumed on this path
 }
@@ -53,6 +54,7 @@ func (e *Effect) PathString() string {
 }
 
 type Walker struct {
+	ArmOnly *ssa.BasicBlock // start the walk of the entry function at this block (see Effect.Arm)
 	A         *Analyzer
 	OnEffect  func(e *Effect)
 	MaxDepth  int
@@ -121,6 +123,7 @@ func (w *Walker) Run(entry *ssa.Function, roots map[string]*Term, init Facts) {
 
 func (w *Walker) emit(e *Effect) {
 	e.Entry = w.entry
+	e.Arm = w.ArmOnly
 	e.Config = w.Config
 	e.Splits = append([]string{}, w.splits...)
 	w.OnEffect(e)
@@ -337,6 +340,9 @@ func (w *Walker) visit(fn *ssa.Function, env map[ssa.Value]*Term, init Facts, pa
 	}
 	sort.Slice(blocks, func(i, j int) bool { return blocks[i].Index < blocks[j].Index })
 	for _, b := range blocks {
+		if w.ArmOnly != nil && fn == w.entryFn && len(path) == 1 && !w.ArmOnly.Dominates(b) {
+			continue // the entry is one arm of the loop's select: the other arms are other entries
+		}
 		facts := fl.In[b].Clone()
 		for _, in := range b.Instrs {
 			if isDead(facts) {
@@ -832,6 +838,9 @@ func (e *Effect) PathConds() []*Term {
 		for _, b := range c.Fn.Blocks {
 			if !reach[b] || b == tb {
 				continue
+			}
+			if e.Arm != nil && c.Fn == e.Arm.Parent() && !e.Arm.Dominates(b) {
+				continue // tests of other arms / earlier iterations of the event loop are not conditions of this arm
 			}
 			if ifi, ok := b.Instrs[len(b.Instrs)-1].(*ssa.If); ok {
 				out = append(out, c.Term(ifi.Cond))
